@@ -149,24 +149,14 @@ func (s *sys) touched(c fsx.Call) []string {
 	var t []string
 
 	add := func(p string) {
-		if p == "" {
-			return
-		}
-
+		// the empty path is taken to name the current directory (generous)
 		abs, _ := s.v.Abs(p)
 		t = append(t, abs)
 
 		func() {
 			defer func() { _ = recover() }()
 
-			if r, err := s.v.EvalSymlinks(abs); err == nil {
-				t = append(t, r)
-			}
-
-			d := s.v.Dir(abs)
-			if r, err := s.v.EvalSymlinks(d); err == nil {
-				t = append(t, s.v.Join(r, s.v.Base(abs)))
-			}
+			t = append(t, fsx.ResolveLoose(s.v, abs)...)
 		}()
 	}
 
